@@ -17,7 +17,7 @@ LEVEL_RULE = (
 )
 EXHAUSTIVE_SUBDOMAINS = ["DF 0..31 x {56,112} bits x {upper,lower,mixed} for structured addresses (single-bit, all-ones, zero)"]
 ASSUMPTIONS = ["canonical form = the string icao() returns for an upper-case DF20 frame of the same address (%06X)"]
-REQUIRED = ["df%d" % d for d in range(32)] + ["case_upper", "case_lower", "case_mixed", "len56", "len112", "table_one_key",
+REQUIRED = ["df%d" % d for d in range(32)] + ["ap_text_echoed_in_payload", "case_upper", "case_lower", "case_mixed", "len56", "len112", "table_one_key",
                                               "allcall_rejects", "df_none"]
 
 AP = (0, 4, 5, 16, 20, 21)
@@ -35,8 +35,16 @@ def m_icao(ctx, case):
         # CA/CF(3) + AA(24) + rest
         rest_bits = n - 29 - 27
         body = ((body >> (n - 29 - 3)) << (n - 29 - 3)) | (addr << rest_bits) | (body & ((1 << rest_bits) - 1))
+    if case.get("echo") is not None and df in AP:
+        # address chosen so that the text of the AP field also occurs inside the payload
+        h0 = "%0*X" % (n // 4, bits.downlink(df, body, n, 0, 0))
+        p0 = case["echo"] % (n // 4 - 11)
+        addr = int(h0[-6:], 16) ^ int(h0[p0:p0 + 6], 16)
+        ctx.hit("ap_text_echoed_in_payload")
     f = bits.downlink(df, body, n, addr, case.get("ic", 0))
     hx = bits.tohex(f, n, case["hexcase"], rng)
+    if case.get("echo") is not None and df in AP and hx[-6:].upper() not in hx[:-6].upper():
+        raise AssertionError("echo construction failed")
     exp = "%06X" % addr if df in AA or df in AP else None
     ctx.hit("df%d" % df)
     ctx.hit("case_" + case["hexcase"])
@@ -88,9 +96,9 @@ def m_table(ctx, case):
         from pyModeS.streamer.decode import Decode
     rng = ctx.rng
     addr = case["addr"]
-    me = (4 << 51) | (rng.getrandbits(3) << 48) | int(case["cs"], 16)  # TC4 identification
+    me = (4 << 51) | (rng.fill(3) << 48) | int(case["cs"], 16)  # TC4 identification
     a = bits.tohex(bits.es_frame(17, 5, addr, me), 112, case["hexcase"], rng)
-    b = bits.tohex(bits.commb_frame(case["df"], rng.getrandbits(27), rng.getrandbits(56), addr), 112, case["hexcase2"], rng)
+    b = bits.tohex(bits.commb_frame(case["df"], rng.fill(27), rng.fill(56), addr), 112, case["hexcase2"], rng)
     d = Decode()
     r = call(d.process_raw, [100.0], [a], [101.0], [b], 102.0)
     ctx.ev()
@@ -126,14 +134,18 @@ def cases(ctx):
             for hc in ("upper", "lower", "mixed"):
                 for j, addr in enumerate(structured):
                     if ctx.mine(i):
-                        yield "icao", {"df": df, "n": n, "addr": addr, "body": "%X" % rng.getrandbits(83), "hexcase": hc,
+                        yield "icao", {"df": df, "n": n, "addr": addr, "body": "%X" % rng.fill(83), "hexcase": hc,
                                        "ic": rng.randrange(80) if j % 2 else 0}
                     i += 1
     for k in range(ctx.share(600000 if quick else 10000000)):
         df = rng.randrange(32) if k % 3 == 0 else rng.choice(AP + AA)
         n = rng.choice((56, 112)) if k % 4 == 0 else bits.df_len(df)
-        yield "icao", {"df": df, "n": n, "addr": rng.getrandbits(24), "body": "%X" % rng.getrandbits(83),
+        yield "icao", {"df": df, "n": n, "addr": rng.fill(24), "body": "%X" % rng.fill(83),
                        "hexcase": rng.choice(("upper", "upper", "lower", "mixed")), "ic": rng.choice((0, 0, rng.randrange(80)))}
+    for k in range(ctx.share(8000 if quick else 100000)):
+        df = rng.choice(AP)
+        yield "icao", {"df": df, "n": bits.df_len(df), "addr": 0, "body": "%X" % rng.fill(83), "echo": rng.randrange(1000),
+                       "hexcase": rng.choice(("upper", "upper", "lower", "mixed")), "ic": 0}
     for k in range(ctx.share(3000 if quick else 20000)):
-        yield "table", {"addr": rng.getrandbits(24) | 0xA00000, "cs": "%X" % rng.getrandbits(48), "df": rng.choice((20, 21)),
+        yield "table", {"addr": rng.fill(24) | 0xA00000, "cs": "%X" % rng.fill(48), "df": rng.choice((20, 21)),
                         "hexcase": "upper" if k % 2 == 0 else rng.choice(("lower", "mixed")), "hexcase2": rng.choice(("upper", "lower"))}
